@@ -13,7 +13,7 @@ stated where it is used and is property C05's:   `Yf (R x) = D (Yf x)`  for the 
 Negative results (the property as stated FAILS on the code as written; replayed by `harness/c18.py`):
   `signal_xyz_rejects_odd_pval`, `sum_of_diracs_rejects_odd_pval`   p_val = -1  →  ValueError
   `with_peaks_at_all_zero_raises`                                     all values 0 → RuntimeError (not the zero tensor)
-  `with_peaks_at_zero_value_not_attained`                             a requested value 0 is silently dropped
+  `with_peaks_at_ignores_zero_values`, `witness_zero_value`           a requested value 0 is silently dropped
 `find_peaks` has no model: not applicable to this technique, exercised by the harness only.
 -/
 namespace E3nnVerif.Props.C18
@@ -79,15 +79,6 @@ theorem sh_guard_iff {pv pa : Int} (hv : pv = 1 ∨ pv = -1) (ha : pa = 1 ∨ pa
 
 /-! ## 2. `norms` -/
 
-/-- `b' = D b` for some orthogonal matrix `D` of the size of the block -/
-def OrthoImage (b b' : List ℝ) : Prop :=
-  ∃ (n : ℕ) (D : Matrix (Fin n) (Fin n) ℝ) (f : Fin n → ℝ),
-    D ∈ Matrix.orthogonalGroup (Fin n) ℝ ∧ b = List.ofFn f ∧ b' = List.ofFn (D.mulVec f)
-
-theorem dot_self_eq_sum_sq : ∀ b : List ℝ, dot b b = (b.map fun x => x ^ 2).sum
-  | [] => by simp [dot]
-  | x :: xs => by simp [dot, dot_self_eq_sum_sq xs]; ring
-
 /-- `norms` of the concatenation of blocks of sizes `2l+1` (in the order of the irreps) is the list of the
 Euclidean norms of the blocks — any irreps, any number of blocks (the offset bookkeeping `i += ir.dim` is right). -/
 theorem norms_eq_block_norms (irs : List MulIr) (blocks : List (List ℝ))
@@ -95,11 +86,6 @@ theorem norms_eq_block_norms (irs : List MulIr) (blocks : List (List ℝ))
     norms irs blocks.flatten = blocks.map fun b => Real.sqrt ((b.map fun x => x ^ 2).sum) := by
   rw [norms_flatten irs blocks h]
   apply List.map_congr_left; intro b _; rw [dot_self_eq_sum_sq]
-
-theorem OrthoImage.spec {b b' : List ℝ} (h : OrthoImage b b') : b'.length = b.length ∧ dot b' b' = dot b b := by
-  obtain ⟨n, D, f, hD, rfl, rfl⟩ := h
-  refine ⟨by simp, ?_⟩
-  rw [dot_ofFn', dot_ofFn', ortho_dot ((Matrix.mem_orthogonalGroup_iff' (Fin n) ℝ).mp hD)]
 
 /-- `norms` is invariant under every block-orthogonal action: each degree-`l` block is replaced by its image under an
 arbitrary orthogonal matrix (in particular the Wigner matrices `D^l(g)`, `g ∈ O(3)`). -/
@@ -352,26 +338,19 @@ theorem with_peaks_at_residual (hshape : ∀ A b, (lstsq A b).length = b.length)
     exact lt_of_le_of_lt this hres
   · cases hx
 
-/-- EXACT interpolation: if the Gram matrix is invertible (which forces: number of retained directions ≤ number of
-coefficients, `gram_invertible_card_le`, and pairwise different `Y(v_a)`, `gram_singular_of_repeated`) and `lstsq`
-returns a least-squares minimiser, then the assert passes and the returned coefficients take the requested value
-at every retained direction. -/
-theorem with_peaks_at_interpolates (hk : kept vectors values ≠ [])
-    (hdet : (keptC Yf (kept vectors values) * (keptC Yf (kept vectors values)).transpose).det ≠ 0)
-    (hls : ∃ s : Fin (kept vectors values).length → ℝ,
+/-- if `lstsq` returns an exact solution `s` of `A s = values` then the assert passes and the returned coefficients
+`x = s @ C` take the requested value at every retained direction, exactly -/
+theorem with_peaks_at_of_solution (hk : kept vectors values ≠ [])
+    (hs : ∃ s : Fin (kept vectors values).length → ℝ,
       lstsq (LL (keptC Yf (kept vectors values) * (keptC Yf (kept vectors values)).transpose))
         (List.ofFn (keptVals (kept vectors values))) = List.ofFn s ∧
-      ∀ x : Fin (kept vectors values).length → ℝ,
-        ∑ i, ((keptC Yf (kept vectors values) * (keptC Yf (kept vectors values)).transpose).mulVec s i
-              - keptVals (kept vectors values) i) ^ 2
-          ≤ ∑ i, ((keptC Yf (kept vectors values) * (keptC Yf (kept vectors values)).transpose).mulVec x i
-              - keptVals (kept vectors values) i) ^ 2) :
+      (keptC Yf (kept vectors values) * (keptC Yf (kept vectors values)).transpose).mulVec s
+        = keptVals (kept vectors values)) :
     ∃ x : Fin n → ℝ, withPeaksAt (ofY Yf) lstsq irs vectors values = .ok (List.ofFn x) ∧
       ∀ q ∈ kept vectors values, signalXyz (ofY Yf) irs (List.ofFn x) q.1 = .ok q.2 := by
   set K := kept vectors values with hK
   set C := keptC Yf K with hC
-  obtain ⟨s, hs, hmin⟩ := hls
-  have hsol : (C * C.transpose).mulVec s = keptVals K := lstsq_exact _ hdet _ _ hmin
+  obtain ⟨s, hs, hsol⟩ := hs
   refine ⟨Matrix.vecMul s C, ?_, ?_⟩
   · rw [withPeaksAt_unfold Yf lstsq irs vectors values hv hp hg hd, core_ofFn lstsq C (keptVals K) s hs, hsol]
     have hN : K.length ≠ 0 := fun h => hk (List.length_eq_zero_iff.mp h)
@@ -394,6 +373,46 @@ theorem with_peaks_at_interpolates (hk : kept vectors values ≠ [])
       simp only [dotProduct, hC, keptC, Fin.getElem_fin]
       apply Finset.sum_congr rfl; intro i _; ring
     rw [e, hsol]; rfl
+
+/-- EXACT interpolation: if the Gram matrix is invertible (which forces: number of retained directions ≤ number of
+coefficients, `gram_invertible_card_le`, and pairwise different `Y(v_a)`, `gram_singular_of_repeated`) and `lstsq`
+returns a least-squares minimiser (its specification), then the assert passes and the returned coefficients take
+the requested value at every retained direction. -/
+theorem with_peaks_at_interpolates (hk : kept vectors values ≠ [])
+    (hdet : (keptC Yf (kept vectors values) * (keptC Yf (kept vectors values)).transpose).det ≠ 0)
+    (hls : ∃ s : Fin (kept vectors values).length → ℝ,
+      lstsq (LL (keptC Yf (kept vectors values) * (keptC Yf (kept vectors values)).transpose))
+        (List.ofFn (keptVals (kept vectors values))) = List.ofFn s ∧
+      ∀ x : Fin (kept vectors values).length → ℝ,
+        ∑ i, ((keptC Yf (kept vectors values) * (keptC Yf (kept vectors values)).transpose).mulVec s i
+              - keptVals (kept vectors values) i) ^ 2
+          ≤ ∑ i, ((keptC Yf (kept vectors values) * (keptC Yf (kept vectors values)).transpose).mulVec x i
+              - keptVals (kept vectors values) i) ^ 2) :
+    ∃ x : Fin n → ℝ, withPeaksAt (ofY Yf) lstsq irs vectors values = .ok (List.ofFn x) ∧
+      ∀ q ∈ kept vectors values, signalXyz (ofY Yf) irs (List.ofFn x) q.1 = .ok q.2 := by
+  obtain ⟨s, hs, hmin⟩ := hls
+  exact with_peaks_at_of_solution Yf lstsq irs vectors values hv hp hg hl hd hn hk
+    ⟨s, hs, lstsq_exact _ hdet _ _ hmin⟩
+
+/-- the same with the model's executable solver in the place of `lstsq` (what `drivers/C18.lean` runs): whenever the
+elimination succeeds (no zero pivot) the result interpolates exactly -/
+theorem with_peaks_at_gauss (hk : kept vectors values ≠ []) (y : List ℝ)
+    (hsome : gaussSolveAux (kept vectors values).length
+      ((LL (keptC Yf (kept vectors values) * (keptC Yf (kept vectors values)).transpose)).zip
+        (List.ofFn (keptVals (kept vectors values)))) = some y) :
+    ∃ x : Fin n → ℝ, withPeaksAt (ofY Yf) gaussSolve irs vectors values = .ok (List.ofFn x) ∧
+      ∀ q ∈ kept vectors values, signalXyz (ofY Yf) irs (List.ofFn x) q.1 = .ok q.2 := by
+  apply with_peaks_at_of_solution Yf gaussSolve irs vectors values hv hp hg hl hd hn hk
+  set K := kept vectors values with hK
+  set A := keptC Yf K * (keptC Yf K).transpose with hA
+  have hlen : (List.ofFn (keptVals K)).length = K.length := by simp
+  obtain ⟨h1, h2, h3⟩ := gaussSolve_sound (LL A) (List.ofFn (keptVals K)) y (by simp [LL])
+    (by intro row hrow; simp only [LL, List.mem_ofFn'] at hrow; obtain ⟨i, rfl⟩ := hrow; simp)
+    (by rw [hlen]; exact hsome)
+  obtain ⟨s, rfl⟩ := exists_ofFn_of_length K.length y (by rw [h2, hlen])
+  refine ⟨s, h1, ?_⟩
+  rw [matVec_ofFn] at h3
+  exact List.ofFn_injective h3
 
 omit hl hn in
 /-- NEGATIVE (1): if every value is zero (e.g. `with_peaks_at(torch.zeros(1,3))`, or explicit zero values) the code
@@ -428,5 +447,117 @@ theorem with_peaks_at_rejects_odd_pval {pa : Int} (ha : pa = 1 ∨ pa = -1) (lma
   have e : ((lmax : Int) + 1).toNat = lmax + 1 := by omega
   rw [e]
   simp [withPeaksAt, stIrreps, List.range_succ_eq_map, firstParity, parityOf, bind, Except.bind]
+
+/-! ### concrete instances (non-vacuity) and the zero-value defect -/
+
+/-- non-vacuity of `with_peaks_at_interpolates` (and of `with_peaks_at_residual`): degree ≤ 1, two directions -/
+example : ∃ x : Fin 4 → ℝ,
+    withPeaksAt (ofY Y1) (fun _ _ => [-1, 3]) irs1 [⟨1, 0, 0⟩, ⟨0, 1, 0⟩] (some [1, 5]) = .ok (List.ofFn x) ∧
+    signalXyz (ofY Y1) irs1 (List.ofFn x) ⟨1, 0, 0⟩ = .ok 1 ∧
+    signalXyz (ofY Y1) irs1 (List.ofFn x) ⟨0, 1, 0⟩ = .ok 5 := by
+  have hK : kept [⟨1, 0, 0⟩, ⟨0, 1, 0⟩] (some [1, 5]) = [(⟨1, 0, 0⟩, 1), (⟨0, 1, 0⟩, 5)] := by
+    have h5 : isNonzero (5 : ℝ) = true := (isNonzero_real 5).mpr (by norm_num)
+    simp [kept, keptPairs, isNonzero_one, h5]
+  obtain ⟨_, h1, h2, h3, h4⟩ := irs1_guards
+  have key := with_peaks_at_interpolates Y1 (fun _ _ => [-1, 3]) irs1 [⟨1, 0, 0⟩, ⟨0, 1, 0⟩] (some [1, 5])
+    (by simp) h1 h2 h3 h4 rfl
+  rw [hK] at key
+  obtain ⟨x, hx, hq⟩ := key (by simp) (by rw [gram_example, Matrix.det_fin_two_of]; norm_num)
+    ⟨![-1, 3], by simp [List.ofFn_succ], fun y => by
+      have : (keptC Y1 [(⟨1, 0, 0⟩, 1), (⟨0, 1, 0⟩, 5)] * (keptC Y1 [(⟨1, 0, 0⟩, 1), (⟨0, 1, 0⟩, 5)]).transpose).mulVec ![-1, 3]
+          = keptVals [(⟨1, 0, 0⟩, 1), (⟨0, 1, 0⟩, 5)] := by
+        rw [gram_example]
+        funext i; fin_cases i <;> simp [keptVals, Matrix.mulVec, dotProduct, Fin.sum_univ_succ] <;> norm_num
+      rw [this]
+      simp only [sub_self, ne_eq, OfNat.ofNat_ne_zero, not_false_eq_true, zero_pow, Finset.sum_const_zero]
+      exact Finset.sum_nonneg fun i _ => sq_nonneg _⟩
+  exact ⟨x, hx, hq (⟨1, 0, 0⟩, 1) (by simp), hq (⟨0, 1, 0⟩, 5) (by simp)⟩
+
+/-- NEGATIVE (2): pairs whose requested value is `0` have no influence on the result at all — the returned signal is
+not constrained to vanish there (concrete instance: `witness_zero_value`). -/
+theorem with_peaks_at_ignores_zero_values {K : Type} [Scalar K] (Y : Vec3 K → List K)
+    (lstsq : List (List K) → List K → List K) (irs : List MulIr)
+    (vectors : List (Vec3 K)) (vals : List K) (hk : keptPairs vectors vals ≠ []) :
+    withPeaksAt Y lstsq irs vectors (some vals) =
+      withPeaksAt Y lstsq irs ((keptPairs vectors vals).map (·.1)) (some ((keptPairs vectors vals).map (·.2))) := by
+  have h1 : vectors.isEmpty = false := by
+    cases vectors with
+    | nil => simp [keptPairs] at hk
+    | cons => rfl
+  have h2 : ((keptPairs vectors vals).map (·.1)).isEmpty = false := by
+    cases h : keptPairs vectors vals with
+    | nil => exact absurd h hk
+    | cons => rfl
+  unfold withPeaksAt
+  simp only [h1, h2, Option.getD_some, keptPairs_idem]
+
+/-- NEGATIVE (2), concrete witness: degree ≤ 1 harmonics `(1,x,y,z)`, peaks requested at `e_x` with value 1 and at `e_y` with
+value 0; `lstsq` solves the (1×1) system exactly.  The returned signal takes the value 1/2 at `e_y`, not 0. -/
+theorem witness_zero_value :
+    withPeaksAt (ofY Y1) (fun _ _ => [1 / 2]) irs1 [⟨1, 0, 0⟩, ⟨0, 1, 0⟩] (some [1, 0]) = .ok [1 / 2, 1 / 2, 0, 0] ∧
+    signalXyz (ofY Y1) irs1 [1 / 2, 1 / 2, 0, 0] ⟨0, 1, 0⟩ = .ok (1 / 2) := by
+  constructor
+  · simp only [withPeaksAt, List.isEmpty_cons, Bool.false_eq_true, if_false, irs1_guards.2.1, irs1_guards.2.2.1,
+      irs1_guards.2.2.2.2, bind, Except.bind, ne_eq, not_true_eq_false, Option.getD_some, keptPairs, List.zip_cons_cons,
+      List.zip_nil_right, List.filter_cons, isNonzero_one, isNonzero_zero, if_true, List.filter_nil, List.map_cons, List.map_nil,
+      ofY, Y1]
+    simp [norm_ex, withPeaksAtCore, gram, dot, matVec, vsub, maxAbs, vecMat, smul, vsum, vadd, zeros, residualTol_real, List.ofFn_succ]
+    norm_num
+  · simp only [signalXyz, irs1_guards.2.2.1, irs1_guards.2.2.2.1, bind, Except.bind]
+    simp [signalXyzVal, ofY, Y1, norm_ey, dot, List.ofFn_succ, pure, Except.pure]
+
+/-! ## 6. `signal_on_grid` -/
+
+/-- `ToS2Grid(lmax, res)`: accepted iff `res` is even and `lmax + 1 ≤ res/2`; then `res_beta = res`,
+`res_alpha = max(2·lmax+1, res−1)` -/
+theorem completeRes_eq (lmax res : Nat) :
+    completeRes lmax res =
+      if res % 2 = 0 ∧ lmax + 1 ≤ res / 2 then .ok (res, max (2 * lmax + 1) (res - 1)) else .error "AssertionError" := by
+  unfold completeRes
+  by_cases h1 : res % 2 = 0 <;> by_cases h2 : lmax + 1 ≤ res / 2 <;> simp [h1, h2]
+
+/-- the reported grid: `res_beta × res_alpha` points `(sin β sin α, cos β, sin β cos α)`,
+`β_b = (b + ½)/res_beta · π`, `α_a = a/res_alpha · 2π`, all of them unit vectors -/
+theorem grid_points (rb ra : Nat) :
+    (s2GridPoints rb ra : List (List (Vec3 ℝ))).length = rb ∧
+    (∀ row ∈ (s2GridPoints rb ra : List (List (Vec3 ℝ))), row.length = ra ∧ ∀ v ∈ row, v.normSq = 1) ∧
+    ∀ (b a : Nat) (_ : b < rb) (_ : a < ra),
+      ((s2GridPoints rb ra : List (List (Vec3 ℝ)))[b]?.bind (·[a]?)) =
+        some (let β : ℝ := ((b : ℝ) + 1 / 2) / rb * Real.pi; let α : ℝ := (a : ℝ) / ra * 2 * Real.pi
+              ⟨Real.sin β * Real.sin α, Real.cos β, Real.sin β * Real.cos α⟩) := by
+  refine ⟨by simp [s2GridPoints, s2Betas], ?_, ?_⟩
+  · intro row hrow
+    simp only [s2GridPoints, List.mem_map] at hrow
+    obtain ⟨b, _, rfl⟩ := hrow
+    refine ⟨by simp [s2Alphas], fun v hv => ?_⟩
+    simp only [List.mem_map] at hv
+    obtain ⟨a, _, rfl⟩ := hv
+    exact angles_to_xyz_normSq a b
+  · intro b a hb ha
+    simp [s2GridPoints, s2Betas, s2Alphas, hb, ha, angles_to_xyz, Scalar.ofFrac, Scalar.ofInt]
+
+/-- `signal_on_grid` returns values that equal `signal_xyz` at the grid points it reports — GIVEN the evaluation
+property of `ToS2Grid` (`hT`, property C11's theorem: `ToS2Grid(c)[b,a] = Σ_i c_i Y_i(x_ba)`); what is proved here is
+the glue: the resolution completion, and that `signal_xyz`'s normalisation is the identity on the grid points. -/
+theorem signal_on_grid_values {n L : Nat} (Yf : Vec3 ℝ → Fin n → ℝ) (irs : List MulIr)
+    (hg : shGuard irs = .ok ()) (hl : lmaxOf irs = .ok L) (hn : n = (L + 1) ^ 2)
+    (toGrid : Nat → Nat → List ℝ → List (List ℝ)) (c : Fin n → ℝ) (res : Nat)
+    (hres : res % 2 = 0 ∧ L + 1 ≤ res / 2)
+    (hT : ∀ rb ra, toGrid rb ra (List.ofFn c) =
+      (s2GridPoints rb ra).map fun row => row.map fun x => ∑ i, c i * Yf x i) :
+    ∃ grid values, signalOnGrid toGrid irs (List.ofFn c) res = .ok (grid, values) ∧
+      grid = s2GridPoints res (max (2 * L + 1) (res - 1)) ∧
+      List.Forall₂ (List.Forall₂ fun x v => signalXyz (ofY Yf) irs (List.ofFn c) x = .ok v) grid values := by
+  refine ⟨s2GridPoints res (max (2 * L + 1) (res - 1)), toGrid res (max (2 * L + 1) (res - 1)) (List.ofFn c), ?_, rfl, ?_⟩
+  · unfold signalOnGrid
+    simp only [hl, completeRes_eq, hres, and_self, if_true, bind, Except.bind, pure, Except.pure]
+  · rw [hT, List.forall₂_map_right_iff, List.forall₂_same]
+    intro row hrow
+    rw [List.forall₂_map_right_iff, List.forall₂_same]
+    intro x hx
+    rw [signal_xyz_eq Yf irs hg hl hn, normalize_unit x (((grid_points _ _).2.1 row hrow).2 x hx)]
+example : completeRes 3 20 = .ok (20, 19) := by decide
+example : completeRes 3 7 = .error "AssertionError" := by decide
+example : completeRes 4 8 = .error "AssertionError" := by decide
 
 end E3nnVerif.Props.C18
